@@ -77,6 +77,8 @@ type Session struct {
 	Chunk    int    `json:"chunk"`    // write chunk size
 	DelayUs  int    `json:"delay_us"` // between chunks
 	Policy   string `json:"policy"`
+	// UpTLS12: the TLS upstream speaks at most TLS 1.2 and sends its last record together with its close_notify
+	UpTLS12 bool `json:"up_tls12,omitempty"`
 	// Wrap is the handler in front of the proxy handler in the upstream-first-wrapped order
 	Wrap string `json:"wrap,omitempty"`
 	// ResetPeer is the peer that resets in the peer-reset-mixed order
@@ -123,6 +125,7 @@ func genSession(c *fw.Ctx, i int) *Session {
 			s.Prefetch = s.CLen
 		}
 	}
+	s.UpTLS12 = s.UpNet == "tls" && r.Intn(2) == 0
 	if s.Order != "peer-reset-mixed" && r.Intn(10) == 0 {
 		// the downstream connection reaches the proxy handler wrapped by a handler whose connection type cannot
 		// half-close (throttle, tee); the upstream finishes first and the client, which knows how much to expect,
@@ -271,23 +274,30 @@ func runSession(c *fw.Ctx, w *world, canary *oracle.Canary, s *Session) {
 					order = "upstream-reset"
 				}
 			}
-			switch order {
-			case "client-first":
-				uc.ReadAllRecord()                              // EOF first ...
-				_ = writeChunks(uc.Conn, U, s.Chunk, s.DelayUs) // ... then our direction must still flow
-			case "upstream-first":
+			// sendAll writes U and half-closes; on a TLS <= 1.2 upstream the last piece and the close_notify leave together
+			sendAll := func() {
+				if s.UpTLS12 && len(U) > 0 {
+					last := 1 + (s.Index*131)%min(len(U), 1200)
+					_ = writeChunks(uc.Conn, U[:len(U)-last], s.Chunk, s.DelayUs)
+					_ = uc.WriteLastAndCloseWrite(U[len(U)-last:])
+					return
+				}
 				_ = writeChunks(uc.Conn, U, s.Chunk, s.DelayUs)
 				if cw, ok := uc.Conn.(closeWriter); ok {
 					_ = cw.CloseWrite()
 				}
+			}
+			switch order {
+			case "client-first":
+				uc.ReadAllRecord() // EOF first ...
+				sendAll()          // ... then our direction must still flow
+			case "upstream-first":
+				sendAll()
 				uc.ReadAllRecord()
 			case "simultaneous":
 				done := make(chan struct{})
 				go func() { uc.ReadAllRecord(); close(done) }()
-				_ = writeChunks(uc.Conn, U, s.Chunk, s.DelayUs)
-				if cw, ok := uc.Conn.(closeWriter); ok {
-					_ = cw.CloseWrite()
-				}
+				sendAll()
 				<-done
 			case "upstream-close-early":
 				_ = writeChunks(uc.Conn, U, s.Chunk, 0)
@@ -313,7 +323,13 @@ func runSession(c *fw.Ctx, w *world, canary *oracle.Canary, s *Session) {
 		if s.UpNet == "tls" {
 			cert = &w.cert.TLS
 		}
-		up, err := drive.NewUpstream(s.UpNet, w.dir, cert, handler)
+		var up *drive.Upstream
+		var err error
+		if s.UpTLS12 {
+			up, err = drive.NewUpstreamTLS(cert, tls.VersionTLS12, handler)
+		} else {
+			up, err = drive.NewUpstream(s.UpNet, w.dir, cert, handler)
+		}
 		if err != nil {
 			c.Inconclusive("cannot start upstream: " + err.Error())
 			return
@@ -536,7 +552,7 @@ func runSession(c *fw.Ctx, w *world, canary *oracle.Canary, s *Session) {
 	nt := (s.CLen > 0 && s.ULen > 0) || !graceful
 	c.Obs("sessions_"+s.Order, 1)
 	c.Obs("bytes_relayed", int64(s.CLen*len(ups)+len(got)))
-	c.Case(fw.Hash(s.UpNet, s.Peers, s.DownTLS, s.TLS12, s.Prefetch, s.CLen, s.ULen, s.Order, s.Chunk, s.DelayUs > 0), nt, func() any { return s })
+	c.Case(fw.Hash(s.UpNet, s.UpTLS12, s.Peers, s.DownTLS, s.TLS12, s.Prefetch, s.CLen, s.ULen, s.Order, s.Chunk, s.DelayUs > 0), nt, func() any { return s })
 }
 
 // interleavingOf reports whether got is an order-preserving interleaving of a and b. Both streams are PRF content
